@@ -47,6 +47,9 @@ def run(chk):
         "(5) tree: push_cano_* = decompose then merge on the same node/child. Not decided: that the represented object is preserved and "
         "that tensors are isometries up to rounding (numerical).")
     chk.assumptions = ["scipy qr/rq/svd in economic mode return min(m, n) vectors", "svd_qn passes full_matrices through to them (read in svd_qn.py)"]
+    chk.rule("direction", "sweep site lists and the direction switch (abstract run on a 5-site chain)", 2)
+    from .mini_specs import direction_bookkeeping
+    direction_bookkeeping(chk, src, "direction")
     chk.rule("svd-mode", "every svd_qn/eigh_qn call outside the two intended bond-growing updates is economic (full_matrices=False)", 10)
     chk.rule("system-direction", "system = 'L' if <obj>.to_right else 'R' (one mapping at every site that derives the system side from the direction)", 4)
     chk.rule("absorb-direction", "_update_ms: sweeping right stores u on site idx and contracts vt into site idx+1 (vt's last-but-one.. first axis), sweeping left mirrors it", 4)
